@@ -31,6 +31,7 @@ func specSizeOK(size int, lower int, upper int) bool {
 //@   modifies p.tokenQueue, p.tokenQueue[0], p.lexer
 //@   ensures len(p.tokenQueue) >= 1 && result == p.tokenQueue[0] && result.typ != tokenTypeComment
 //@   ensures old(len(p.tokenQueue)) >= 1 ==> p.tokenQueue == old(p.tokenQueue) && result == old(p.tokenQueue[0])
+//@   ensures ref(p.tokenQueue) == old(ref(p.tokenQueue)) || fresh(p.tokenQueue)
 
 //@ func (*parser).acceptAny
 //@   property C06
@@ -38,12 +39,14 @@ func specSizeOK(size int, lower int, upper int) bool {
 //@   modifies p.tokenQueue, p.tokenQueue[0], p.lexer
 //@   ensures result.typ != tokenTypeComment
 //@   ensures old(len(p.tokenQueue)) >= 1 ==> result == old(p.tokenQueue[0])
+//@   ensures ref(p.tokenQueue) == old(ref(p.tokenQueue)) || fresh(p.tokenQueue)
 
 //@ func (*parser).accept
 //@   property C06
 //@   owns sml.parser, sml.lexer, sml.token
 //@   modifies p.tokenQueue, p.tokenQueue[0], p.lexer
 //@   ensures ok == (t.typ == typ) && t.typ != tokenTypeComment
+//@   ensures ref(p.tokenQueue) == old(ref(p.tokenQueue)) || fresh(p.tokenQueue)
 
 //@ func (*parser).checkDataItemSizeError
 //@   property C15
@@ -51,3 +54,81 @@ func specSizeOK(size int, lower int, upper int) bool {
 //@   modifies p.errors, p.errors[0]
 //@   ensures specSizeOK(size, lowerLimit, upperLimit) ==> len(p.errors) == old(len(p.errors))
 //@   ensures !specSizeOK(size, lowerLimit, upperLimit) ==> len(p.errors) == old(len(p.errors)) + 1 && p.errors[len(p.errors)-1].line == t.line && p.errors[len(p.errors)-1].col == t.col
+
+//@ func (*parser).getDataItemValueTokens
+//@   property C05 C06
+//@   owns sml.parser, sml.lexer, sml.token
+//@   modifies p.tokenQueue, p.tokenQueue[0], p.lexer
+//@   ensures fresh(result)
+//@   ensures forall k int :: 0 <= k && k < len(result) ==> result[k].typ != tokenTypeComment
+//@   loop 1
+//@     invariant fresh(tokens) && ref(p.tokenQueue) != ref(tokens)
+//@     invariant forall k int :: 0 <= k && k < len(tokens) ==> tokens[k].typ != tokenTypeComment
+
+//@ func (*parser).parseInt
+//@   property C05
+//@   owns sml.parser, sml.lexer, sml.token, sml.parseError
+//@   maypanic
+//@   modifies p.tokenQueue, p.tokenQueue[0], p.lexer, p.errors, p.errors[0], p.variableNames
+//@   requires specIsIntW(byteSize)
+//@   let e0 = old(len(p.errors))
+//@   ensures ok && len(p.errors) == e0 ==> typeis(item, *IntNode) && cast(item, *IntNode).byteSize == byteSize
+//@   loop 1
+//@     invariant 0 <= rangeindex+1 && rangeindex+1 <= len(rangeover) && fresh(values) && fresh(rangeover) && len(values) == rangeindex+1 && e0 <= len(p.errors)
+//@     invariant len(p.errors) == e0 ==> forall k int :: 0 <= k && k <= rangeindex && rangeover[k].typ == tokenTypeNumber ==> parse_ok(rangeover[k].val, 0, byteSize*8, 1) && isint(values[k]) && ival(values[k]) == parse_val(rangeover[k].val, 0, byteSize*8, 1)
+//@     invariant len(p.errors) == e0 ==> forall k int :: 0 <= k && k <= rangeindex && rangeover[k].typ == tokenTypeVariable ==> typeis(values[k], string) && sval(values[k]) == rangeover[k].val
+//@     invariant len(p.errors) == e0 ==> forall k int :: 0 <= k && k <= rangeindex ==> rangeover[k].typ == tokenTypeNumber || rangeover[k].typ == tokenTypeVariable
+
+//@ func (*parser).parseUint
+//@   property C05
+//@   owns sml.parser, sml.lexer, sml.token, sml.parseError
+//@   maypanic
+//@   modifies p.tokenQueue, p.tokenQueue[0], p.lexer, p.errors, p.errors[0], p.variableNames
+//@   requires specIsIntW(byteSize)
+//@   let e0 = old(len(p.errors))
+//@   ensures ok && len(p.errors) == e0 ==> typeis(item, *UintNode) && cast(item, *UintNode).byteSize == byteSize
+//@   loop 1
+//@     invariant 0 <= rangeindex+1 && rangeindex+1 <= len(rangeover) && fresh(values) && fresh(rangeover) && len(values) == rangeindex+1 && e0 <= len(p.errors)
+//@     invariant len(p.errors) == e0 ==> forall k int :: 0 <= k && k <= rangeindex && rangeover[k].typ == tokenTypeNumber ==> parse_ok(rangeover[k].val, 0, byteSize*8, 0) && isint(values[k]) && ival(values[k]) == parse_val(rangeover[k].val, 0, byteSize*8, 0)
+//@     invariant len(p.errors) == e0 ==> forall k int :: 0 <= k && k <= rangeindex && rangeover[k].typ == tokenTypeVariable ==> typeis(values[k], string) && sval(values[k]) == rangeover[k].val
+//@     invariant len(p.errors) == e0 ==> forall k int :: 0 <= k && k <= rangeindex ==> rangeover[k].typ == tokenTypeNumber || rangeover[k].typ == tokenTypeVariable
+
+//@ func (*parser).parseFloat
+//@   property C05
+//@   owns sml.parser, sml.lexer, sml.token, sml.parseError
+//@   maypanic
+//@   modifies p.tokenQueue, p.tokenQueue[0], p.lexer, p.errors, p.errors[0], p.variableNames
+//@   requires specIsFloatW(byteSize)
+//@   let e0 = old(len(p.errors))
+//@   ensures ok && len(p.errors) == e0 ==> typeis(item, *FloatNode) && cast(item, *FloatNode).byteSize == byteSize
+//@   loop 1
+//@     invariant 0 <= rangeindex+1 && rangeindex+1 <= len(rangeover) && fresh(values) && fresh(rangeover) && len(values) == rangeindex+1 && e0 <= len(p.errors)
+//@     invariant len(p.errors) == e0 ==> forall k int :: 0 <= k && k <= rangeindex && rangeover[k].typ == tokenTypeNumber ==> parsef_ok(rangeover[k].val, byteSize*8) && isfloat(values[k]) && fval(values[k]) == parsef_val(rangeover[k].val, byteSize*8)
+//@     invariant len(p.errors) == e0 ==> forall k int :: 0 <= k && k <= rangeindex && rangeover[k].typ == tokenTypeVariable ==> typeis(values[k], string) && sval(values[k]) == rangeover[k].val
+//@     invariant len(p.errors) == e0 ==> forall k int :: 0 <= k && k <= rangeindex ==> rangeover[k].typ == tokenTypeNumber || rangeover[k].typ == tokenTypeVariable
+
+//@ func (*parser).parseBinary
+//@   property C05
+//@   owns sml.parser, sml.lexer, sml.token, sml.parseError
+//@   maypanic
+//@   modifies p.tokenQueue, p.tokenQueue[0], p.lexer, p.errors, p.errors[0], p.variableNames
+//@   let e0 = old(len(p.errors))
+//@   ensures ok && len(p.errors) == e0 ==> typeis(item, *BinaryNode)
+//@   loop 1
+//@     invariant 0 <= rangeindex+1 && rangeindex+1 <= len(rangeover) && fresh(values) && fresh(rangeover) && len(values) == rangeindex+1 && e0 <= len(p.errors)
+//@     invariant len(p.errors) == e0 ==> forall k int :: 0 <= k && k <= rangeindex && rangeover[k].typ == tokenTypeNumber ==> parse_ok(rangeover[k].val, 0, 0, 1) && typeis(values[k], int) && ival(values[k]) == parse_val(rangeover[k].val, 0, 0, 1) && 0 <= ival(values[k]) && ival(values[k]) < 256
+//@     invariant len(p.errors) == e0 ==> forall k int :: 0 <= k && k <= rangeindex && rangeover[k].typ == tokenTypeVariable ==> typeis(values[k], string) && sval(values[k]) == rangeover[k].val
+//@     invariant len(p.errors) == e0 ==> forall k int :: 0 <= k && k <= rangeindex ==> rangeover[k].typ == tokenTypeNumber || rangeover[k].typ == tokenTypeVariable
+
+//@ func (*parser).parseBoolean
+//@   property C05
+//@   owns sml.parser, sml.lexer, sml.token, sml.parseError
+//@   maypanic
+//@   modifies p.tokenQueue, p.tokenQueue[0], p.lexer, p.errors, p.errors[0], p.variableNames
+//@   let e0 = old(len(p.errors))
+//@   ensures ok && len(p.errors) == e0 ==> typeis(item, *BooleanNode)
+//@   loop 1
+//@     invariant 0 <= rangeindex+1 && rangeindex+1 <= len(rangeover) && fresh(values) && fresh(rangeover) && len(values) == rangeindex+1 && e0 <= len(p.errors)
+//@     invariant len(p.errors) == e0 ==> forall k int :: 0 <= k && k <= rangeindex && rangeover[k].typ == tokenTypeBool ==> typeis(values[k], bool) && bval(values[k]) == (rangeover[k].val == "T")
+//@     invariant len(p.errors) == e0 ==> forall k int :: 0 <= k && k <= rangeindex && rangeover[k].typ == tokenTypeVariable ==> typeis(values[k], string) && sval(values[k]) == rangeover[k].val
+//@     invariant len(p.errors) == e0 ==> forall k int :: 0 <= k && k <= rangeindex ==> rangeover[k].typ == tokenTypeBool || rangeover[k].typ == tokenTypeVariable
